@@ -429,6 +429,9 @@ func genC08(t *rapid.T) C08Case {
 		d = encodeDoc(vals, gen.RapidChooser{T: t})
 	} else {
 		d = printDoc(vals, gen.RapidChooser{T: t})
+		if gen.Chance(t, 8) {
+			d.Doc = alignToBuffer(d.Doc, func(n int) int { return gen.Intn(t, n) })
+		}
 	}
 	c.Doc, c.Vals = d.Doc, d.Vals
 	n := gen.Range(t, 1, 40)
